@@ -221,7 +221,7 @@ def run_cases(prop, tier, hib_values=(False, True)):
     for kinds, mech, pop in combos:
         mech, _, objective = mech.partition(":")
         for hib in hib_values:
-            for L in ((2,) if tier == "quick" else (1, 2)):
+            for L in ((1, 2) if (tier != "quick" or mech == "stub-multi") else (2,)):
                 st = steps if len(kinds) == 2 else min(steps, 4)  # 3-level runs fork on more local-stop verdicts per step
                 cs.append(dict(name=f"run.{'-'.join(kinds)}.{mech}{'.' + objective if objective else ''}.hib{hib}.L{L}.steps{st}", fn=h_run,
                                params=dict(kinds=list(kinds), props=[prop], steps=st, mech=mech, hibernation=hib, L=L, pop=pop,
